@@ -101,6 +101,10 @@ def stepStaking' (st : StkState) (toks : List String) : StkState × String :=
   | ["setwd", a, b] => runOp st (.setWithdraw a b)
   -- a message followed, in one execute_multi, by a transfer that cannot succeed: the transaction fails as a whole
   | "rb" :: _ => (st, "err")
+  | ["slash-direct", v, p] =>      -- the module's sudo entry point called directly: the same operation
+    match p.toNat? with
+    | some p => runOp st (.slash v ⟨p⟩)
+    | none => (st, "bad-op")
   | ["slash", v, p] =>
     match p.toNat? with
     | some p => runOp st (.slash v ⟨p⟩)
